@@ -17,6 +17,7 @@ func (ex *Exec) call(fr *Frame, x *ssa.Call, st *State, k CallCont) {
 	var args []Val
 	for _, a := range common.Args {
 		args = append(args, ex.val(fr, st, a))
+		ex.checkTypeInv(fr, st, args[len(args)-1], a.Type(), "passed to a call")
 	}
 	if b, ok := common.Value.(*ssa.Builtin); ok {
 		ex.builtin(fr, common, b, args, st, k)
@@ -79,6 +80,13 @@ func (ex *Exec) callValue(fr *Frame, fnv Val, args []Val, site ssa.Instruction, 
 					}
 				}
 			}
+		}
+		if td := vc.prog.typeDecl("typespec", common.Value.Type()); td != nil {
+			if sp := vc.prog.contracts.Specs[td.Spec]; sp != nil {
+				ex.applyContract(fr, sp, nil, common.Signature(), args, site, st, k, "spec "+sp.Name)
+				return
+			}
+			vc.fatalf("typespec %s: unknown spec %s", td.Name, td.Spec)
 		}
 		if sp, ok := vc.funcSpecs[fnv.T.S]; ok {
 			ex.applyContract(fr, sp, nil, common.Signature(), args, site, st, k, "spec "+sp.Name)
@@ -176,6 +184,10 @@ func (ex *Exec) callFunc(fr *Frame, callee *ssa.Function, binds []Val, args []Va
 		ex.pureLibCall(name, callee, args, st, k)
 		return
 	}
+	if sd := vc.prog.sinkFor(callee); sd != nil && vc.prog.contracts.Funcs[name] == nil {
+		ex.sinkCall(fr, sd, name, callee, args, st, k)
+		return
+	}
 	// bun's query builder: every other *SelectQuery method that returns a *SelectQuery returns its receiver
 	// (what it adds to the SQL text is not modelled here; see the taint contracts for C20)
 	if strings.HasPrefix(name, "(*github.com/uptrace/bun.SelectQuery).") && callee.Signature.Results().Len() == 1 &&
@@ -269,7 +281,9 @@ func (ex *Exec) inline(fr *Frame, callee *ssa.Function, binds []Val, args []Val,
 
 func (ex *Exec) freshOfType(st *State, t types.Type, what string) Val {
 	vc := ex.vc
-	return tv(vc.fresh(what, vc.sorts.SortOf(t)))
+	v := tv(vc.fresh(what, vc.sorts.SortOf(t)))
+	ex.assumeTypeInv(st, v, t)
+	return v
 }
 
 func (ex *Exec) resultVal(st *State, sig *types.Signature, what string) Val {
@@ -522,6 +536,7 @@ func (ex *Exec) applyContract(fr *Frame, c *FuncContract, callee *ssa.Function, 
 	vc.usedCon[c.Name] = true
 	pkg := vc.prog.contracts.pkgOf[c.Name]
 	env := ex.newEnv(st, nil, pkg, fr)
+	env.calleeFn = callee
 	// bind parameters
 	var pnames []string
 	var ptypes []types.Type
@@ -597,6 +612,7 @@ func (ex *Exec) applyContract(fr *Frame, c *FuncContract, callee *ssa.Function, 
 	}
 	res := ex.resultVal(st, sig, "res_"+shortName(name))
 	post := ex.newEnv(st, pre, pkg, fr)
+	post.calleeFn = callee
 	for kk, v := range env.binds {
 		post.binds[kk] = v
 	}
